@@ -221,6 +221,107 @@ fn cli16() -> String {
     format!("{{\"check\":\"cli16\",\"runs\":{},\"violations\":0,\"solutions\":{{{}}}}}", items.len(), items.join(","))
 }
 
+/// External sampling, one thread, on games where sampling cannot matter (only one player has
+/// decisions, no chance): (1) returned strategies for T = 1..6 against the textbook discounted
+/// update with weights t^gamma; (2) thresholded runs against prefix runs.
+fn xdriver() -> (usize, Vec<String>) {
+    use cfr::PlayerNum::{One, Two};
+    let mut bad = Vec::new();
+    let mut runs = 0usize;
+    let pays = [1.5, -2.0, 0.5];
+    let names = ["a", "b", "c"];
+    for who in [One, Two] {
+        let game = Game::from_root(p(who, "x", (0..3).map(|i| (names[i], t(pays[i]))).collect())).unwrap();
+        let sign = if matches!(who, One) { 1.0 } else { -1.0 };
+        for (pname, al, be, ga) in [("vanilla", f64::INFINITY, f64::INFINITY, 0.0), ("g1", f64::INFINITY, 0.0, 1.0), ("g2", 0.0, f64::NEG_INFINITY, 2.0)] {
+            let params = RegretParams::new(al, be, ga, 0.0);
+            let disc = |x: f64| if x == f64::INFINITY { 1.0 } else if x == 0.0 { 0.5 } else { 0.0 };
+            // textbook
+            let mut reg = [0.0f64; 3];
+            let mut avg = [0.0f64; 3];
+            let mut sigma = [1.0 / 3.0; 3];
+            let mut expect = Vec::new();
+            for tt in 1..=6u64 {
+                // the deciding player's average receives sigma_t with weight t^gamma
+                let w = (tt as f64).powf(ga);
+                let v: f64 = (0..3).map(|i| sigma[i] * sign * pays[i]).sum();
+                let first = matches!(who, One);
+                for i in 0..3 {
+                    // player two's average is fed during player one's pass, before its own update;
+                    // player one's average is fed during player two's pass, i.e. after its update
+                    if !first {
+                        avg[i] += w * sigma[i];
+                    }
+                    reg[i] += sign * pays[i] - v;
+                }
+                let pos: f64 = reg.iter().filter(|r| **r > 0.0).sum();
+                for i in 0..3 {
+                    sigma[i] = if pos > 0.0 { if reg[i] > 0.0 { reg[i] / pos } else { 0.0 } } else { 1.0 / 3.0 };
+                }
+                if first {
+                    for i in 0..3 {
+                        avg[i] += w * sigma[i];
+                    }
+                }
+                for r in reg.iter_mut() {
+                    if *r > 0.0 { *r *= disc(al) } else if *r < 0.0 { *r *= disc(be) }
+                }
+                let tot: f64 = avg.iter().sum();
+                expect.push([avg[0] / tot, avg[1] / tot, avg[2] / tot]);
+            }
+            for tt in 1..=6u64 {
+                runs += 1;
+                let (s, _) = game.solve(SolveMethod::External, tt, 0.0, 1, Some(params)).unwrap();
+                let named = probs_of(&s);
+                let got: Vec<f64> = names.iter().map(|n| named.iter().find(|(_, a, _)| a == n).map(|x| x.2).unwrap_or(0.0)).collect();
+                let e = expect[(tt - 1) as usize];
+                if (0..3).any(|i| (got[i] - e[i]).abs() > 1e-9) {
+                    if bad.len() < 5 {
+                        bad.push(format!("external, only player {who:?} decides, params {pname}, T={tt}: strategy {got:?} but the textbook iterates give {e:?}"));
+                    } else {
+                        bad.push(String::new());
+                    }
+                }
+            }
+            // early termination against prefix runs
+            let mut pre = Vec::new();
+            for tt in 0..=6u64 {
+                let (s, b) = game.solve(SolveMethod::External, tt, 0.0, 1, Some(params)).unwrap();
+                pre.push((b.player_regret_bound(One), b.player_regret_bound(Two), named_of(&s)));
+            }
+            let mut ths = vec![0.0, -1.0, f64::NAN, f64::INFINITY];
+            for (b1, b2, _) in pre.iter().skip(1) {
+                for v in [*b1, *b2] {
+                    ths.push(v);
+                    ths.push(f64::from_bits(v.to_bits().wrapping_add(1)));
+                }
+            }
+            for n in 0..=6u64 {
+                for &r in &ths {
+                    runs += 1;
+                    let (s, b) = game.solve(SolveMethod::External, n, r, 1, Some(params)).unwrap();
+                    let mut tstar = n;
+                    for tt in 1..=n {
+                        if f64::max(pre[tt as usize].0, pre[tt as usize].1) < r {
+                            tstar = tt;
+                            break;
+                        }
+                    }
+                    let e = &pre[tstar as usize];
+                    if bits(b.player_regret_bound(One)) != bits(e.0) || bits(b.player_regret_bound(Two)) != bits(e.1) || named_of(&s) != e.2 {
+                        if bad.len() < 5 {
+                            bad.push(format!("external, only player {who:?} decides, params {pname}, N={n}, r={r:e}: not the result of the prefix run t*={tstar}"));
+                        } else {
+                            bad.push(String::new());
+                        }
+                    }
+                }
+            }
+        }
+    }
+    (runs, bad)
+}
+
 fn main() {
     let args: Vec<String> = std::env::args().collect();
     let which = args.get(1).map(|s| s.as_str()).unwrap_or("");
@@ -230,6 +331,7 @@ fn main() {
     }
     let (runs, bad) = match which {
         "c09" => c09(),
+        "xdriver" => xdriver(),
         "c06" => threads(&[(SolveMethod::Full, true), (SolveMethod::Full, false)]),
         "c07" => {
             let (r1, mut b1) = threads(&[(SolveMethod::Sampled, false)]);
